@@ -15,6 +15,7 @@ case "$ID" in
   C14) TARGETS="c14_reader"; MAXLEN=512 ;;
   C01) TARGETS="c01_bytes c01_ops"; MAXLEN=65536 ;;
   C02) TARGETS="c02_shape"; MAXLEN=4096 ;;
+  C05) TARGETS="c05_tape"; MAXLEN=3600 ;;
   *) exit 0 ;;
 esac
 NT=$(echo $TARGETS | wc -w)
